@@ -28,6 +28,8 @@ type treeModel struct {
 	trace  []int32          // consultations recorded inside the implementation
 	undo   func()
 	hist   string
+	exts   []extRecord
+	preds  []func([]byte, uint32) bool
 }
 
 func (t *treeModel) labelOf(name, ext string) int {
@@ -86,7 +88,23 @@ var pristineNodes []mimetype.VerifNode
 func installTree(history []extOp, cur *treeModel) *treeModel {
 	if cur != nil && cur.undo != nil {
 		cur.undo()
+		cur.undo = nil
 	}
+	t := newTree()
+	for _, op := range history {
+		t.apply(op)
+	}
+	t.wrap()
+	return t
+}
+
+type extRecord struct {
+	name, ext, parent string
+	aliases            []string // the caller-owned slice handed to Extend (len = aliases, cap = len+2)
+	spare              []string // the two spare slots of its backing array
+}
+
+func newTree() *treeModel {
 	if !pristineTaken {
 		mimetype.VerifSnapshot()
 		pristineNodes = mimetype.VerifNodes()
@@ -94,7 +112,6 @@ func installTree(history []extOp, cur *treeModel) *treeModel {
 	}
 	mimetype.VerifRestore()
 	t := &treeModel{labels: map[string]int{}, byName: map[string]*mnode{}}
-	// model of the built-in tree from the pristine snapshot
 	ms := make([]*mnode, len(pristineNodes))
 	for i, n := range pristineNodes {
 		ms[i] = &mnode{name: n.Name, ext: n.Ext, aliases: n.Aliases, det: n.Det, builtin: true}
@@ -107,48 +124,66 @@ func installTree(history []extOp, cur *treeModel) *treeModel {
 		}
 	}
 	t.root = ms[0]
-	var hs []string
-	var prevName string
-	for k, op := range history {
-		name := fmt.Sprintf("x/e%d", k+1)
-		ext := fmt.Sprintf(".e%d", k+1)
-		var aliases []string
-		backing := make([]string, op.Aliases, op.Aliases+2)
-		for a := 0; a < op.Aliases; a++ {
-			backing[a] = fmt.Sprintf("x/e%d-alias%d", k+1, a+1)
-		}
-		aliases = backing
-		pred := extPreds[op.Pred].f
-		// --- implementation
-		var parentName string
-		switch extAttach[op.Attach] {
-		case "root-pkg":
+	return t
+}
+
+// apply performs one Extend on the implementation (public API) and on the model.
+func (t *treeModel) apply(op extOp) {
+	if t.undo != nil {
+		t.undo()
+		t.undo = nil
+	}
+	k := len(t.exts)
+	name := fmt.Sprintf("x/e%d", k+1)
+	ext := fmt.Sprintf(".e%d", k+1)
+	backing := make([]string, op.Aliases+2)
+	for a := 0; a < op.Aliases; a++ {
+		backing[a] = fmt.Sprintf("x/e%d-alias%d", k+1, a+1)
+	}
+	backing[op.Aliases], backing[op.Aliases+1] = "<spare0>", "<spare1>"
+	aliases := backing[:op.Aliases:len(backing)]
+	pred := extPreds[op.Pred].f
+	prevName := ""
+	if k > 0 {
+		prevName = t.exts[k-1].name
+	}
+	var parentName string
+	switch extAttach[op.Attach] {
+	case "root-pkg":
+		mimetype.Extend(pred, name, ext, aliases...)
+		parentName = "application/octet-stream"
+	case "root-lookup":
+		mimetype.Lookup("application/octet-stream").Extend(pred, name, ext, aliases...)
+		parentName = "application/octet-stream"
+	case "prev-ext":
+		if prevName == "" {
 			mimetype.Extend(pred, name, ext, aliases...)
 			parentName = "application/octet-stream"
-		case "root-lookup":
-			mimetype.Lookup("application/octet-stream").Extend(pred, name, ext, aliases...)
-			parentName = "application/octet-stream"
-		case "prev-ext":
-			if prevName == "" {
-				mimetype.Extend(pred, name, ext, aliases...)
-				parentName = "application/octet-stream"
-			} else {
-				mimetype.Lookup(prevName).Extend(pred, name, ext, aliases...)
-				parentName = prevName
-			}
-		default:
-			parentName = extAttach[op.Attach]
-			mimetype.Lookup(parentName).Extend(pred, name, ext, aliases...)
+		} else {
+			mimetype.Lookup(prevName).Extend(pred, name, ext, aliases...)
+			parentName = prevName
 		}
-		// --- model: prepend under the first node (pre-order) called parentName
-		p := t.find(parentName)
-		n := &mnode{name: name, ext: ext, aliases: append([]string{}, aliases...), det: pred, parent: p}
-		n.label = t.labelOf(name, ext)
-		p.children = append([]*mnode{n}, p.children...)
-		prevName = name
-		hs = append(hs, op.String())
+	default:
+		parentName = extAttach[op.Attach]
+		mimetype.Lookup(parentName).Extend(pred, name, ext, aliases...)
 	}
-	t.hist = strings.Join(hs, " ; ")
+	p := t.find(parentName)
+	n := &mnode{name: name, ext: ext, aliases: append([]string{}, aliases...), det: pred, parent: p}
+	n.label = t.labelOf(name, ext)
+	p.children = append([]*mnode{n}, p.children...)
+	t.exts = append(t.exts, extRecord{name, ext, parentName, aliases, backing[op.Aliases:]})
+	t.preds = append(t.preds, pred)
+	if t.hist != "" {
+		t.hist += " ; "
+	}
+	t.hist += op.String()
+}
+
+// wrap installs the consultation recorder on every implementation detector.
+func (t *treeModel) wrap() {
+	if t.undo != nil {
+		return
+	}
 	nodes := mimetype.VerifNodes()
 	t.undo = mimetype.VerifWrapDetectors(func(idx int, name string, d func([]byte, uint32) bool) func([]byte, uint32) bool {
 		lab := int32(t.labelOf(nodes[idx].Name, nodes[idx].Ext))
@@ -162,7 +197,6 @@ func installTree(history []extOp, cur *treeModel) *treeModel {
 			return r
 		}
 	})
-	return t
 }
 
 // find models Lookup: depth-first, node name or alias.
